@@ -980,7 +980,10 @@ def _subns_args(rng, fmt):
         ca = None          # GCXS cannot compress all axes of a 2-d array (same rule as _sp)
     neg = ("sp", fmt[0], ca, [[-4.0, 0.0, 9.0], [0.0, -1.0, 0.0]], 0, "float64")
     x23, y23 = _sp(rng, fmt, (2, 3), 0, "float64"), _sp(rng, fmt, (2, 3), 0, "float64")
-    xc23, yc23 = _sp(rng, fmt, (2, 3), 0, "complex128"), _sp(rng, fmt, (2, 3), 0, "complex128")
+    # explicit values: every lane has overlapping non-zeros, so a wrong conjugation changes the result
+    xc23 = ("sp", fmt[0], ca, [[1.0, 2.0, 0.0], [0.0, -3.0, 4.0]], 0, "complex128")
+    yc23 = ("sp", fmt[0], ca, [[2.0, 0.0, 1.0], [5.0, 1.0, -2.0]], 0, "complex128")
+    x23 = ("sp", fmt[0], ca, [[3.0, 1.0, 0.0], [0.0, 2.0, 5.0]], 0, "float64")
     return {
         "linalg.diagonal": [[_sp(rng, fmt, (2, 2, 3), 0, "float64")], [_sp(rng, fmt, (3, 3, 2), 0, "float64")]],
         "linalg.outer": [[x23, y23]],                                   # NumPy demands 1-d operands
